@@ -63,7 +63,7 @@ def repertoire(nodes, focus=None):
         acts.append(dict(act="rename", sp=p, sn=nm, dp=OUT, dn="moved_" + nm, prio=1))
         acts.append(dict(act="rename", sp=p, sn=nm, dp=27, dn="c2", prio=1))
         for (sp, sn, sc) in staged:
-            acts.append(dict(act="exchange", sp=p, sn=nm, dp=sp, dn=sn, prio=1 if sc in (21, 23, 27) else 0))
+            acts.append(dict(act="exchange", sp=p, sn=nm, dp=sp, dn=sn, prio=1 if sc in (23, 27) else 0))
         if kinds.get(c) != "dir":
             acts.append(dict(act="unlink", p=p, n=nm))
     return acts
